@@ -6,7 +6,16 @@ import (
 
 var capture_group_number int = 0
 
-func parse(tokens []*Token) ([]AstCommand, error) {
+func parse(all_tokens []*Token) ([]AstCommand, error) {
+	// whitespace and comments may appear between any two tokens and mean nothing,
+	// so drop them here once instead of skipping them in every parse function
+	tokens := []*Token{}
+	for _, token := range all_tokens {
+		if token.TokenType != WS && token.TokenType != COMMENT {
+			tokens = append(tokens, token)
+		}
+	}
+
 	commands := []AstCommand{}
 	capture_group_number = 0
 	token_index := 0
